@@ -272,3 +272,7 @@ func emitDirect(l log.Logger, task, seq int, tagName string, op EvOp) *Submitted
 	}
 	return s
 }
+
+func ctxFor(task, seq int) context.Context {
+	return context.WithValue(context.Background(), ctxKey, evKey{task: task, seq: seq})
+}
